@@ -21,7 +21,7 @@ import (
 
 func TestMain(m *testing.M) {
 	vh.Rule("both login flows against a scripted peer. exhaustive: the valid reply scripts (plain: LOGINACK(SUCCEED) DONE(FINAL); encrypted: LOGINACK(NEGOTIATE) MSG(ENCRYPT4) PARAMFMT(INT4,LONGBINARY,LONGBINARY) PARAMS(1, PEM PKCS#1 key, nonce) DONE, then LOGINACK(SUCCEED) CAPABILITY DONE(FINAL), with ENVCHANGE(PACKSIZE) and info EEDs in between) and EVERY single-edit mutation of them: delete / duplicate / swap-adjacent each package, alter each field (ack status, msg id, parameter count, each parameter type, cipher-suite value, key truncated/garbled/empty/wrong PEM type, nonce empty/long, capability masks all zero, DONE status bits), peer going silent in the middle of either response; rapid: random multi-edit scripts, all packetisations, RSA 1024/1536/2048, nonces 0..64 bytes, 0..3 remote servers. Oracle: a reference acceptor written from the property text classifies each script; Login must return nil iff ACCEPT, an error (never a panic, never later than context deadline + 3 s) otherwise; after success Conn.Caps equals the server's masks and PacketSize() the announced size. Non-trivial: the script differs from the valid one; distinct by the script")
-	vh.Assume("packages after the final DONE of a response are out of scope (next response); a key followed by trailing bytes, an empty nonce and capability packages that lack a mask type or where only some masks are all-zero are not judged; the password fits the key (nonce+password <= OAEP capacity); context deadline 2 s for complete scripts (never reached on a correct tree), 300 ms where the peer goes silent")
+	vh.Assume("packages after the final DONE of a response are out of scope (next response); a key followed by trailing bytes, an empty nonce and capability packages that lack a mask type are not judged; the password fits the key (nonce+password <= OAEP capacity); context deadline 2 s for complete scripts (never reached on a correct tree), 300 ms where the peer goes silent")
 	vh.Main(m, "C08")
 }
 
@@ -272,7 +272,8 @@ func classify(c c08Case) verdict {
 		return reject("phase 2: all capability masks are zero")
 	}
 	if someZero {
-		return verdict{Judge: false, Why: "some capability masks all-zero"}
+		// an all-zero value mask means the server did not understand that capability request
+		return reject("phase 2: a capability mask is all zero")
 	}
 	if len(tail) == 1 {
 		if complete2 {
@@ -462,6 +463,16 @@ func editsFor(s loginpeer.Script, plain bool) []edit {
 					p[i] = rc.P{Cap: &rc.Capability{Masks: []rc.CapMask{{Type: 1, Mask: make([]byte, 14)}, {Type: 2, Mask: make([]byte, 8)}}}}
 					*resp(s, r) = p
 				}})
+				es = append(es, edit{"caps:request-mask-zero", func(s *loginpeer.Script) {
+					p := clone(*resp(s, r))
+					p[i] = rc.P{Cap: &rc.Capability{Masks: []rc.CapMask{{Type: 1, Mask: make([]byte, 14)}, p[i].Cap.Masks[1]}}}
+					*resp(s, r) = p
+				}})
+				es = append(es, edit{"caps:response-mask-zero", func(s *loginpeer.Script) {
+					p := clone(*resp(s, r))
+					p[i] = rc.P{Cap: &rc.Capability{Masks: []rc.CapMask{p[i].Cap.Masks[0], {Type: 2, Mask: make([]byte, 8)}}}}
+					*resp(s, r) = p
+				}})
 				es = append(es, edit{"caps:request-only", func(s *loginpeer.Script) {
 					p := clone(*resp(s, r))
 					p[i] = rc.P{Cap: &rc.Capability{Masks: p[i].Cap.Masks[:1]}}
@@ -516,6 +527,9 @@ func editsFor(s loginpeer.Script, plain bool) []edit {
 					})
 					mod("key:empty", func(f *rc.Fmt, r *rc.Row) { r.Cells[1].V = rc.V{T: rc.TLongBinary, Null: true} })
 					mod("key:not-pem", func(f *rc.Fmt, r *rc.Row) { r.Cells[1].B = []byte("this is not a key") })
+					mod("key:whitespace", func(f *rc.Fmt, r *rc.Row) { r.Cells[1].B = []byte("\r\n \n") })
+					mod("key:single-newline", func(f *rc.Fmt, r *rc.Row) { r.Cells[1].B = []byte("\n") })
+					mod("key:header-only", func(f *rc.Fmt, r *rc.Row) { r.Cells[1].B = []byte("-----BEGIN RSA PUBLIC KEY-----\n") })
 					mod("key:pkix-type", func(f *rc.Fmt, r *rc.Row) {
 						blk, _ := pem.Decode(r.Cells[1].B)
 						if blk == nil {
@@ -597,7 +611,7 @@ func TestSingleEditsExhaustive(t *testing.T) {
 	n := 0
 	for _, plain := range []bool{true, false} {
 		for _, extras := range []bool{false, true} {
-			base := validScript(plain, key, []byte("0123456789abcdef"), extras, extras, map[bool]int{false: 0, true: 2048}[extras])
+			base := validScript(plain, key, []byte("0123456789abcdef"), extras, extras, map[bool]int{false: 0, true: 40000}[extras])
 			// positive control
 			if !e.Do(c08Case{Cfg: baseCfg(plain), Key: key, Script: base, Edit: "none"}) {
 				return
@@ -652,7 +666,7 @@ func TestRandomScripts(t *testing.T) {
 		extras := rapid.Bool().Draw(rt, "extras")
 		ps := 0
 		if rapid.Bool().Draw(rt, "packsize") {
-			ps = rapid.SampledFrom([]int{512, 1024, 2048, 4096, 16384}).Draw(rt, "ps")
+			ps = rapid.SampledFrom([]int{512, 1024, 2048, 4096, 16384, 32767, 32768, 40000, 65535, 256, 513}).Draw(rt, "ps")
 		}
 		s := validScript(plain, key, nonce, rapid.Bool().Draw(rt, "widefmt"), extras, ps)
 		cfg := baseCfg(plain)
